@@ -13,6 +13,17 @@ dict or list operation is emitted from the AST node.  Mutated objects (`scope`, 
 mutates the scope rebinds `v_scope`.  A Python exception is `None`.  Anything outside the recognised subset raises
 SystemExit naming the node (fail closed).  Recursion of `_convert_pattern` is on explicit fuel.
 
+Canonicalisation (behaviour-preserving rewrites of the Python give the SAME generated text, up to bound names):
+  * every object that is mutated gets a FRESH Coq name at each mutation (single assignment), so a pure local is simply
+    replaced by its definition wherever it is used (intermediate variables, single-use locals, renamings vanish);
+  * `if not c: A else: B` = `if c: B else: A`;  `x is not None` = swapped `x is None`;  an `if` whose branch does not
+    return is completed with the statements that follow it (guard clause / early return = if/else);
+    `if x is None` on an Optional is a `match` that refines x in the other branch;
+  * a private helper method of the same class (static, straight-line, one final return) is inlined at its call site;
+  * a dict comprehension is the loop that fills an empty dict; `d.get(k)` is the Optional lookup; `f(*a, *b)` =
+    `f(*(a + b))`; `_, l, r = t` = `l = t[1]; r = t[2]`; `case A() | B():` = one arm per class; a bare annotation
+    `x: T` declares nothing.
+
 NOT translated (primitives of GenPrims.v / hand model, tied differentially only): the notation definitions of
 proofs/kore.py and definedness.py (kore_rewrites ... functional), Pattern.instantiate / == / match_single
 (`inst`, `kpat_eqb`, `match_rewrites`), kl.deconstruct_nary_application, LanguageSemantics.get_symbol/get_sort/
@@ -113,55 +124,93 @@ def v(name):
 
 
 class Ctx:
-    def __init__(self, fn):
+    """env: python name -> (coq expression, type).  Coq names are never rebound (single assignment)."""
+
+    def __init__(self, fn, counter=None):
         self.fn = fn
-        self.types = {}
+        self.env = {}
+        self.known = {}      # (key, dict) -> name of the value found by an enclosing membership test
         self.binds = []
-        self.n = 0
+        self.counter = counter if counter is not None else [0]
         self.where = f'{fn.cls}.{fn.name}'
         self.pure = not fn.state and fn.name in ('aml_symbol', 'app', 'current_configuration')
 
-    def fresh(self):
-        self.n += 1
-        return f't{self.n}'
+    def fork(self):
+        c = Ctx(self.fn, self.counter)
+        c.env = dict(self.env)
+        c.known = dict(self.known)
+        return c
+
+    def fresh(self, p='t'):
+        self.counter[0] += 1
+        return f'{p}{self.counter[0]}'
 
     def ret_wrap(self, val):
         f = self.fn
         if self.pure:
             return val
         if f.state:
-            return f'Some ({v(f.state)}, {val})' if f.ret != 'unit' else f'Some {v(f.state)}'
+            st = self.env[f.state][0]
+            return f'Some ({st}, {val})' if f.ret != 'unit' else f'Some {st}'
         return f'Some {val}'
 
 
-def wrap_binds(binds, body):
+def emit_binds(binds, body):
     for kind, pat, expr in reversed(binds):
-        body = f'match {expr} with None => None | Some {pat} => {body} end'
+        if kind == 'l':
+            body = f'let {pat} := {expr} in {body}'
+        else:
+            body = f'match {expr} with None => None | Some {pat} => {body} end'
     return body
+
+
+def with_binds(ctx, fn):
+    saved = ctx.binds
+    ctx.binds = []
+    r = fn()
+    b = ctx.binds
+    ctx.binds = saved
+    return r, b
+
+
+def bind_partial(ctx, expr, typ):
+    x = ctx.fresh()
+    ctx.binds.append(('p', x, expr))
+    return x, typ
 
 
 # ------------------------------------------------------------------------------------------------ expressions
 
 def call_fn(f, ctx, args_coq):
-    """application of a translated function; extra (implicit) parameters first, fuel after them"""
-    pre = [v(n) for n, _ in f.extra]
+    pre = [ctx.env[n][0] for n, _ in f.extra]
     if f.fuel:
         pre.append('fuel')
     return '(' + ' '.join([f.coq] + pre + args_coq) + ')'
+
+
+def dotted(e):
+    if isinstance(e, ast.Name):
+        return e.id
+    if isinstance(e, ast.Attribute):
+        d = dotted(e.value)
+        return d + '.' + e.attr if d else None
+    return None
 
 
 def tr_expr(e, ctx):
     """-> (coq, type); partial / mutating sub-expressions are bound in ctx.binds (in evaluation order)"""
     w = ctx.where
     if isinstance(e, ast.Name):
-        if e.id not in ctx.types:
+        if e.id not in ctx.env:
             die(w, e, 'unknown name')
-        return v(e.id), ctx.types[e.id]
+        return ctx.env[e.id]
     if isinstance(e, ast.Constant):
         if isinstance(e.value, str):
             if '"' in e.value:
                 die(w, e, 'string constant with a quote')
             return f'"{e.value}"%string', 'str'
+        if e.value is None:
+            return 'None', 'none'
         if isinstance(e.value, bool) or not isinstance(e.value, int):
             die(w, e, 'constant')
         return f'{e.value}%N', 'N'
@@ -169,25 +218,24 @@ def tr_expr(e, ctx):
         return '[]', 'ndict'
     if isinstance(e, ast.List) and not e.elts:
         return '[]', 'emptylist'
+    if isinstance(e, ast.Tuple):
+        parts = [tr_expr(x, ctx) for x in e.elts]
+        return '(' + ', '.join(p for p, _ in parts) + ')', 'tuple:' + ','.join(t for _, t in parts)
     if isinstance(e, ast.Attribute):
-        # class constant / module-level things first
         if isinstance(e.value, ast.Name) and e.value.id == 'self' and e.attr == 'SORT_PARAM_METAVAR':
             return 'gen_SORT_PARAM_METAVAR', 'N'
         if isinstance(e.value, ast.Name) and e.value.id == 'self' and e.attr == 'language_semantics':
-            return v('language_semantics'), 'sig'
+            return ctx.env['language_semantics'][0], 'sig'
         if dotted(e) == 'kl.kore_kseq':
             return 'NotKseq', 'gnotation'
         if isinstance(e.value, ast.Name) and e.value.id == 'AxiomType':
             return f'"{e.attr}"%string', 'str'
         o, t = tr_expr(e.value, ctx)
-        # translated properties
         for f in FUNCS:
             if f.name == e.attr and len(f.params) == 1 and f.params[0][1] == t and not f.state:
                 return call_fn(f, ctx, [o]), f.ret
         if (t, e.attr) == ('gkore', 'sort'):
-            x = ctx.fresh()
-            ctx.binds.append(('p', x, f'gvar_sort {o}'))
-            return x, 'sort'
+            return bind_partial(ctx, f'gvar_sort {o}', 'sort')
         if (t, e.attr) not in ATTRS:
             die(w, e, f'attribute of a {t}')
         fn, rt = ATTRS[(t, e.attr)]
@@ -207,29 +255,20 @@ def tr_expr(e, ctx):
     if isinstance(e, ast.Subscript):
         o, t = tr_expr(e.value, ctx)
         if t == 'tup3' and isinstance(e.slice, ast.Constant) and e.slice.value in (0, 1, 2):
-            return ['(fst (fst %s))', '(snd (fst %s))', '(snd %s)'][e.slice.value] % o, 'kpat'
+            return tup3_proj(o, e.slice.value), 'kpat'
         if t == 'gkores' and isinstance(e.slice, ast.Constant) and isinstance(e.slice.value, int) and e.slice.value >= 0:
-            x = ctx.fresh()
-            ctx.binds.append(('p', x, f'nth_error {o} {e.slice.value}'))
-            return x, 'gkore'
+            return bind_partial(ctx, f'nth_error {o} {e.slice.value}', 'gkore')
         k, tk = tr_expr(e.slice, ctx)
         if t == 'sdict' and tk == 'str':
-            x = ctx.fresh()
-            ctx.binds.append(('p', x, f'sd_get {k} {o}'))
-            return x, 'kpat'
-        if t == 'scopecache' and tk == 'N':
-            x = ctx.fresh()
-            ctx.binds.append(('p', x, f'sem_cached_scope {o} {k}'))
-            return x, 'gscope'
+            if (k, o) in ctx.known:
+                return ctx.known[(k, o)], 'kpat'
+            return bind_partial(ctx, f'sd_get {k} {o}', 'kpat')
         die(w, e, f'subscript of a {t}')
     if isinstance(e, ast.Compare) and len(e.ops) == 1:
         op = e.ops[0]
         a, ta = tr_expr(e.left, ctx)
-        if isinstance(op, (ast.Is, ast.IsNot)) and isinstance(e.comparators[0], ast.Constant) and e.comparators[0].value is None:
-            if not ta.startswith('opt '):
-                die(w, e, f'`is None` on a {ta}')
-            t = f'(match {a} with None => true | Some _ => false end)'
-            return (t if isinstance(op, ast.Is) else f'(negb {t})'), 'bool'
+        if isinstance(op, (ast.Is, ast.IsNot)):
+            die(w, e, '`is` outside an if/assert test')
         b, tb = tr_expr(e.comparators[0], ctx)
         if isinstance(op, (ast.In, ast.NotIn)):
             if tb == 'sdict' and ta == 'str':
@@ -257,21 +296,33 @@ def tr_expr(e, ctx):
     die(w, e, 'expression outside the subset')
 
 
-def dotted(e):
-    if isinstance(e, ast.Name):
-        return e.id
-    if isinstance(e, ast.Attribute):
-        d = dotted(e.value)
-        return d + '.' + e.attr if d else None
-    return None
+def tup3_proj(o, i):
+    return ['(fst (fst %s))', '(snd (fst %s))', '(snd %s)'][i] % o
+
+
+def star_args(args, ctx):
+    """f(*a, *b) / f(*(a + b)) -> one list expression"""
+    parts = []
+    for a in args:
+        if not isinstance(a, ast.Starred):
+            return None
+        x, t = tr_expr(a.value, ctx)
+        if t != 'kpats':
+            die(ctx.where, a, f'starred {t}')
+        parts.append(x)
+    if not parts:
+        return None
+    out = parts[0]
+    for p in parts[1:]:
+        out = f'({out} ++ {p})'
+    return out
 
 
 def tr_call(e, ctx):
     w = ctx.where
-    if e.keywords and not (dotted(e.func) in ('MetaVar', 'proof.ProofExp')):
-        die(w, e, 'keyword arguments')
     name = dotted(e.func)
-    # ---- constructors / builtins
+    if e.keywords and name not in ('MetaVar', 'proof.ProofExp'):
+        die(w, e, 'keyword arguments')
     if name == 'Symbol' and len(e.args) == 1:
         a, t = tr_expr(e.args[0], ctx)
         if t != 'str':
@@ -320,7 +371,6 @@ def tr_call(e, ctx):
         return f'(new_exec {b})', 'gexec'
     if name == 'proof.ProofExp':
         return 'empty_module', 'pmodule'
-    # ---- kl.<notation>
     if name and name.startswith('kl.'):
         n = name[3:]
         if n in NOTATIONS and len(e.args) == NOTATIONS[n]:
@@ -342,32 +392,35 @@ def tr_call(e, ctx):
             return f'(NotNary {a} (N.to_nat {b}))', 'gnotation'
         if n == 'kore_rewrites.assert_matches' and len(e.args) == 1:
             a, t = tr_expr(e.args[0], ctx)
-            x = ctx.fresh()
-            ctx.binds.append(('p', x, f'match_rewrites {a}'))
-            return x, 'tup3'
+            return bind_partial(ctx, f'match_rewrites {a}', 'tup3')
+        if n == 'deconstruct_nary_application' and len(e.args) == 1:
+            a, t = tr_expr(e.args[0], ctx)
+            return f'(nary_head {a})', 'naryparts'
         die(w, e, 'kl.* call outside the table')
-    # ---- calls of a value: notation objects
-    if isinstance(e.func, ast.Name) and ctx.types.get(e.func.id) == 'fun3' and len(e.args) == 3:
+    if isinstance(e.func, ast.Name) and e.func.id in ctx.env and ctx.env[e.func.id][1] == 'fun3' and len(e.args) == 3:
         args = [tr_expr(a, ctx)[0] for a in e.args]
-        return '(' + ' '.join([v(e.func.id)] + args) + ')', 'kpat'
+        return '(' + ' '.join([ctx.env[e.func.id][0]] + args) + ')', 'kpat'
     if isinstance(e.func, ast.Attribute):
         meth = e.func.attr
         recv = e.func.value
-        # ksymbol.app(*(a + b))
-        if len(e.args) == 1 and isinstance(e.args[0], ast.Starred):
+        if e.args and all(isinstance(a, ast.Starred) for a in e.args):
             o, t = tr_expr(e.func, ctx)
             if t != 'gnotation':
                 die(w, e, 'starred call of a non-notation')
-            a, ta = tr_expr(e.args[0].value, ctx)
-            x = ctx.fresh()
-            ctx.binds.append(('p', x, f'call_notation {o} {a}'))
-            return x, 'kpat'
+            a = star_args(e.args, ctx)
+            return bind_partial(ctx, f'call_notation {o} {a}', 'kpat')
         if meth == 'instantiate' and len(e.args) == 1:
             o, t = tr_expr(recv, ctx)
             d, td = tr_expr(e.args[0], ctx)
             if t != 'kpat' or td != 'ndict':
                 die(w, e, 'instantiate')
             return f'(inst {d} {o})', 'kpat'
+        if meth == 'get' and len(e.args) == 1:
+            o, t = tr_expr(recv, ctx)
+            k, tk = tr_expr(e.args[0], ctx)
+            if t != 'sdict' or tk != 'str':
+                die(w, e, f'.get on a {t}')
+            return f'(sd_get {k} {o})', 'opt kpat'
         if meth in ('items', 'values') and not e.args:
             o, t = tr_expr(recv, ctx)
             if meth == 'items' and t == 'sdictk':
@@ -376,36 +429,28 @@ def tr_call(e, ctx):
                 return f'(map snd {o})', 'kpats'
             die(w, e, f'.{meth}() of a {t}')
         rname = dotted(recv)
-        # primitives on self / language_semantics
-        if rname == 'self' and ctx.types.get('self') == 'gsem' and meth in ('get_symbol', 'get_sort') and len(e.args) == 1:
+        rtype = ctx.env[rname][1] if rname in ctx.env else None
+        if rname == 'self' and rtype == 'gsem' and meth in ('get_symbol', 'get_sort') and len(e.args) == 1:
             a, t = tr_expr(e.args[0], ctx)
-            x = ctx.fresh()
-            ctx.binds.append(('p', x, f'sem_{meth} v_self {a}'))
-            return x, 'ksymbol' if meth == 'get_symbol' else 'ksortdecl'
+            return bind_partial(ctx, f'sem_{meth} {ctx.env["self"][0]} {a}', 'ksymbol' if meth == 'get_symbol' else 'ksortdecl')
         if meth == 'resolve_to_ksymbol' and len(e.args) == 1:
             o, t = tr_expr(recv, ctx)
             a, ta = tr_expr(e.args[0], ctx)
             if t != 'sig' or ta != 'kpat':
                 die(w, e, 'resolve_to_ksymbol')
             return f'(sem_resolve_to_ksymbol {o} {a})', 'opt ksymbol'
-        if rname == 'kl' or rname is None:
-            pass
-        if rname == 'self' and ctx.types.get('self') == 'gexec' and meth == 'load_axiom' and len(e.args) == 1:
+        if rname == 'self' and rtype == 'gexec' and meth == 'load_axiom' and len(e.args) == 1:
             a, t = tr_expr(e.args[0], ctx)
-            x = ctx.fresh()
-            ctx.binds.append(('p', x, f'prim_load_axiom v_self {a}'))
-            return x, 'kpat'
-        if rname == 'self' and ctx.types.get('self') == 'gexec' and meth == 'dynamic_inst' and len(e.args) == 2:
+            return bind_partial(ctx, f'prim_load_axiom {ctx.env["self"][0]} {a}', 'kpat')
+        if rname == 'self' and rtype == 'gexec' and meth == 'dynamic_inst' and len(e.args) == 2:
             a, ta = tr_expr(e.args[0], ctx)
             b, tb = tr_expr(e.args[1], ctx)
             if ta != 'kpat' or tb != 'ndict':
                 die(w, e, 'dynamic_inst')
             return f'(prim_dynamic_inst {a} {b})', 'proofterm'
-        # translated methods
         if meth in BYNAME:
             f = BYNAME[meth]
             static = rname == f.cls
-            params = f.params if static or f.params[0][0] != 'self' else f.params
             args_src = ([] if static or f.params[0][0] != 'self' else [recv]) + list(e.args)
             if len(args_src) != len(f.params):
                 die(w, e, 'arity of a translated method')
@@ -413,36 +458,27 @@ def tr_call(e, ctx):
             for a_src, (pn, pt) in zip(args_src, f.params):
                 a, t = tr_expr(a_src, ctx)
                 if t.startswith('opt ') and t[4:] == pt:
-                    x = ctx.fresh()
-                    ctx.binds.append(('p', x, a))          # AttributeError on None
-                    a = x
-                    t = pt
+                    a, t = bind_partial(ctx, a, pt)        # AttributeError on None
                 if t != pt and not (t == 'emptylist' and pt in ('kpats',)):
                     die(w, e, f'argument {pn}: {t} where {pt} is expected')
                 coq_args.append(a)
             call = call_fn(f, ctx, coq_args)
             if not f.state:
                 if f.name in ('collect_functional_axioms',):
-                    x = ctx.fresh()
-                    ctx.binds.append(('p', x, call))
-                    return x, f.ret
+                    return bind_partial(ctx, call, f.ret)
                 return call, f.ret
-            # the mutated object is the argument at the state position: rebind the caller's variable
             si = [i for i, (pn, _) in enumerate(f.params) if pn == f.state][0]
             target = args_src[si]
             if not isinstance(target, ast.Name):
                 die(w, e, 'mutating call on a non-variable')
-            tv = v(target.id)
-            opt_target = ctx.types[target.id].startswith('opt ')
+            ns = ctx.fresh('s')
             if f.ret == 'unit':
-                ctx.binds.append(('s', tv if not opt_target else f'{tv}_', call))
-                if opt_target:
-                    ctx.binds.append(('l', tv, f'Some {tv}_'))
+                ctx.binds.append(('s', ns, call))
+                ctx.env[target.id] = (ns, f.params[si][1])
                 return 'tt', 'unit'
             x = ctx.fresh()
-            ctx.binds.append(('s', f'({tv if not opt_target else tv + "_"}, {x})', call))
-            if opt_target:
-                ctx.binds.append(('l', tv, f'Some {tv}_'))
+            ctx.binds.append(('s', f'({ns}, {x})', call))
+            ctx.env[target.id] = (ns, f.params[si][1])
             return x, f.ret
         die(w, e, f'method {meth} outside the subset')
     die(w, e, 'call outside the subset')
@@ -457,23 +493,126 @@ def tr_listcomp(e, ctx):
     elem = {'sorts': 'sort', 'gkores': 'gkore', 'convaxioms': 'convaxiom'}.get(ti)
     if elem is None:
         die(w, e, f'comprehension over a {ti}')
-    sub = Ctx(ctx.fn)
-    sub.types = dict(ctx.types)
-    sub.types[g.target.id] = elem
-    sub.n = ctx.n + 100
+    sub = ctx.fork()
+    xv = ctx.fresh('x')
+    sub.env[g.target.id] = (xv, elem)
+    st = ctx.fn.state
+    if st and st in ctx.env:
+        sv = ctx.fresh('s')
+        sub.env[st] = (sv, ctx.env[st][1])
     body, tb = tr_expr(e.elt, sub)
     if not sub.binds:
-        return f'(map (fun {v(g.target.id)} => {body}) {it})', {'kpat': 'kpats'}.get(tb, 'list')
-    # exactly one mutating call of the threaded object, returned as it is
-    if len(sub.binds) != 1 or sub.binds[0][0] != 's' or ctx.fn.state is None:
+        return f'(map (fun {xv} => {body}) {it})', {'kpat': 'kpats'}.get(tb, 'list')
+    if len(sub.binds) != 1 or sub.binds[0][0] != 's' or not st:
         die(w, e, 'comprehension element with more than one effect')
     _, pat, call = sub.binds[0]
-    sv = v(ctx.fn.state)
-    if pat != f'({sv}, {body})' or tb != 'kpat':
+    if pat != f'({sub.env[st][0]}, {body})' or tb != 'kpat':
         die(w, e, 'comprehension element must be the mutating call itself')
-    x = ctx.fresh()
-    ctx.binds.append(('s', f'({sv}, {x})', f'st_map (fun {sv} {v(g.target.id)} => {call}) {sv} {it}'))
+    ns, x = ctx.fresh('s'), ctx.fresh()
+    ctx.binds.append(('s', f'({ns}, {x})', f'st_map (fun {sv} {xv} => {call}) {ctx.env[st][0]} {it}'))
+    ctx.env[st] = (ns, ctx.env[st][1])
     return x, 'kpats'
+
+
+# ------------------------------------------------------------------------------------------------ AST pre-passes
+
+class Renamer(ast.NodeTransformer):
+    def __init__(self, m):
+        self.m = m
+
+    def visit_Name(self, n):
+        return ast.copy_location(ast.Name(id=self.m.get(n.id, n.id), ctx=n.ctx), n)
+
+
+def find_helper_call(node, helpers):
+    """the helper call that is a direct operand of a statement (value of an assignment, argument of .append, returned)"""
+    cands = []
+    if isinstance(node, (ast.Assign, ast.AnnAssign, ast.Return)) and node.value is not None:
+        cands.append(node.value)
+    if isinstance(node, ast.Expr) and isinstance(node.value, ast.Call):
+        c = node.value
+        cands.append(c)
+        if isinstance(c.func, ast.Attribute) and c.func.attr == 'append' and len(c.args) == 1:
+            cands.append(c.args[0])
+    for c in cands:
+        if isinstance(c, ast.Call) and isinstance(c.func, ast.Attribute) and isinstance(c.func.value, ast.Name) \
+                and (c.func.value.id, c.func.attr) in helpers:
+            return c
+    return None
+
+
+def inline_helpers(stmts, helpers, where, counter):
+    """replace `... = Cls._helper(args)` by the helper's statements (locals renamed apart) and its returned expression"""
+    out = []
+    for s in stmts:
+        for field in ('body', 'orelse'):
+            if hasattr(s, field) and isinstance(getattr(s, field), list) and not isinstance(s, ast.Match):
+                setattr(s, field, inline_helpers(getattr(s, field), helpers, where, counter))
+        if isinstance(s, ast.Match):
+            for c in s.cases:
+                c.body = inline_helpers(c.body, helpers, where, counter)
+        call = find_helper_call(s, helpers)
+        if call is None:
+            # a helper call anywhere else is not understood
+            for n in ast.walk(s):
+                if isinstance(n, ast.Call) and isinstance(n.func, ast.Attribute) and isinstance(n.func.value, ast.Name) \
+                        and (n.func.value.id, n.func.attr) in helpers and not isinstance(s, (ast.For, ast.If, ast.Match)):
+                    die(where, n, 'helper call in a position that cannot be inlined')
+            out.append(s)
+            continue
+        h = helpers[(call.func.value.id, call.func.attr)]
+        if call.keywords or len(call.args) != len(h.args.args) or h.args.vararg or h.args.kwarg or h.args.defaults:
+            die(where, call, 'helper call shape')
+        body = [st for st in h.body if not (isinstance(st, ast.Expr) and isinstance(st.value, ast.Constant))]
+        if not body or not isinstance(body[-1], ast.Return) or body[-1].value is None \
+                or any(isinstance(n, (ast.Return, ast.For, ast.While, ast.If, ast.Match, ast.Try, ast.With)) for st in body[:-1] for n in ast.walk(st)):
+            die(where, h, 'helper is not straight-line code with one final return')
+        counter[0] += 1
+        pre = f'h{counter[0]}_'
+        names = {a.arg for a in h.args.args}
+        for st in body:
+            for n in ast.walk(st):
+                if isinstance(n, ast.Name) and isinstance(n.ctx, ast.Store):
+                    names.add(n.id)
+        names.discard('_')
+        ren = Renamer({n: pre + n for n in names})
+        import copy
+        for p, a in zip(h.args.args, call.args):
+            out.append(ast.copy_location(ast.Assign(targets=[ast.Name(id=pre + p.arg, ctx=ast.Store())], value=a), s))
+        for st in body[:-1]:
+            out.append(ast.fix_missing_locations(ren.visit(copy.deepcopy(st))))
+        ret = ren.visit(copy.deepcopy(body[-1].value))
+
+        class Repl(ast.NodeTransformer):
+            def visit_Call(self, n):
+                return ret if n is call else self.generic_visit(n)
+        out.append(ast.fix_missing_locations(Repl().visit(s)))
+    return out
+
+
+def desugar(stmts, counter):
+    """dict comprehension -> loop filling an empty dict"""
+    out = []
+    for s in stmts:
+        for field in ('body', 'orelse'):
+            if hasattr(s, field) and isinstance(getattr(s, field), list) and not isinstance(s, ast.Match):
+                setattr(s, field, desugar(getattr(s, field), counter))
+        if isinstance(s, ast.Match):
+            for c in s.cases:
+                c.body = desugar(c.body, counter)
+        val = s.value if isinstance(s, (ast.Return, ast.Assign, ast.AnnAssign)) else None
+        if isinstance(val, ast.DictComp) and len(val.generators) == 1 and not val.generators[0].ifs:
+            counter[0] += 1
+            acc = f'dc{counter[0]}_acc'
+            g = val.generators[0]
+            out.append(ast.copy_location(ast.Assign(targets=[ast.Name(id=acc, ctx=ast.Store())], value=ast.Dict(keys=[], values=[])), s))
+            store = ast.Assign(targets=[ast.Subscript(value=ast.Name(id=acc, ctx=ast.Load()), slice=val.key, ctx=ast.Store())], value=val.value)
+            out.append(ast.fix_missing_locations(ast.copy_location(ast.For(target=g.target, iter=g.iter, body=[store], orelse=[]), s)))
+            s.value = ast.Name(id=acc, ctx=ast.Load())
+            out.append(ast.fix_missing_locations(s))
+        else:
+            out.append(s)
+    return out
 
 
 # ------------------------------------------------------------------------------------------------ statements
@@ -491,76 +630,63 @@ def terminates(stmts):
     return False
 
 
-def emit_binds(binds, body):
-    for kind, pat, expr in reversed(binds):
-        if kind == 'l':
-            body = f'let {pat} := {expr} in {body}'
-        else:
-            body = f'match {expr} with None => None | Some {pat} => {body} end'
-    return body
-
-
-def with_binds(ctx, fn):
-    """run fn() (which translates expressions), return (its result, binds it registered)"""
-    saved = ctx.binds
-    ctx.binds = []
-    r = fn()
-    b = ctx.binds
-    ctx.binds = saved
-    return r, b
+def assign_name(ctx, name, x, tx, s):
+    """python `name = <pure value>`: the name now stands for the expression"""
+    old = ctx.env.get(name)
+    ctx.env[name] = (x, tx)
 
 
 def tr_stmts(stmts, ctx, after):
-    """`after()` gives the translation of what follows this block (lazily)"""
+    """`after(ctx)` gives the translation of what follows this block, in the context reached"""
     if not stmts:
-        return after()
+        return after(ctx)
     s, rest = stmts[0], stmts[1:]
     w = ctx.where
 
-    def cont():
-        return tr_stmts(rest, ctx, after)
+    def cont(c=None):
+        return tr_stmts(rest, c or ctx, after)
 
     if isinstance(s, ast.Expr) and isinstance(s.value, ast.Constant) and isinstance(s.value.value, str):
-        return cont()                                       # docstring
+        return cont()
+    if isinstance(s, ast.AnnAssign) and s.value is None:
+        return cont()                                       # bare declaration `x: T`
     if isinstance(s, ast.Expr) and isinstance(s.value, ast.Call):
         name = dotted(s.value.func)
         if name == 'print' or name == 'self._inferred_notations.add':
-            return cont()                                   # no effect on anything modelled (pretty-printing table)
+            return cont()
         f = s.value.func
         if isinstance(f, ast.Attribute) and f.attr == 'append' and len(s.value.args) == 1:
             (x, tx), b = with_binds(ctx, lambda: tr_expr(s.value.args[0], ctx))
             tgt = f.value
-            if isinstance(tgt, ast.Name) and ctx.types.get(tgt.id) in ('emptylist', 'convaxioms', 'kpats'):
-                if ctx.types[tgt.id] == 'emptylist':
-                    ctx.types[tgt.id] = {'convaxiom': 'convaxioms', 'kpat': 'kpats'}[tx]
-                return emit_binds(b, f'let {v(tgt.id)} := {v(tgt.id)} ++ [{x}] in {cont()}')
-            if isinstance(tgt, ast.Attribute) and isinstance(tgt.value, ast.Name):
-                ot = ctx.types.get(tgt.value.id)
+            if isinstance(tgt, ast.Name) and tgt.id in ctx.env and ctx.env[tgt.id][1] in ('emptylist', 'convaxioms', 'kpats'):
+                o, ot = ctx.env[tgt.id]
+                nt = {'convaxiom': 'convaxioms', 'kpat': 'kpats'}.get(tx)
+                if nt is None or (ot != 'emptylist' and ot != nt):
+                    die(w, s, 'append of a wrong element')
+                ctx.env[tgt.id] = (f'({o} ++ [{x}])', nt)
+                return emit_binds(b, cont())
+            if isinstance(tgt, ast.Attribute) and isinstance(tgt.value, ast.Name) and tgt.value.id in ctx.env:
+                o, ot = ctx.env[tgt.value.id]
                 if (ot, tgt.attr) in SETTERS and tx == 'kpat':
-                    o = v(tgt.value.id)
                     get = ATTRS[(ot, tgt.attr)][0]
-                    return emit_binds(b, f'let {o} := {SETTERS[(ot, tgt.attr)]} {o} ({get} {o} ++ [{x}]) in {cont()}')
+                    ns = ctx.fresh('s')
+                    ctx.env[tgt.value.id] = (ns, ot)
+                    return emit_binds(b, f'let {ns} := {SETTERS[(ot, tgt.attr)]} {o} ({get} {o} ++ [{x}]) in {cont()}')
             die(w, s, 'append target')
-        if name == 'self.add_proof_expression' and len(s.value.args) == 1 and ctx.types.get('self') == 'gexec':
+        if name == 'self.add_proof_expression' and len(s.value.args) == 1 and ctx.env.get('self', ('', ''))[1] == 'gexec':
             (x, tx), b = with_binds(ctx, lambda: tr_expr(s.value.args[0], ctx))
             if tx != 'proofterm':
                 die(w, s, 'add_proof_expression argument')
-            return emit_binds(b, f'let v_self := set_proofs v_self (x_proofs v_self ++ [{x}]) in {cont()}')
+            o = ctx.env['self'][0]
+            ns = ctx.fresh('s')
+            ctx.env['self'] = (ns, 'gexec')
+            return emit_binds(b, f'let {ns} := set_proofs {o} (x_proofs {o} ++ [{x}]) in {cont()}')
         (x, tx), b = with_binds(ctx, lambda: tr_expr(s.value, ctx))
         if tx != 'unit' and not (isinstance(f, ast.Attribute) and f.attr in BYNAME and BYNAME[f.attr].state):
             die(w, s, 'expression statement with a value')
         return emit_binds(b, cont())
     if isinstance(s, ast.Assert):
-        (c, tc), b = with_binds(ctx, lambda: tr_expr(s.test, ctx))
-        if tc != 'bool':
-            die(w, s, 'assert of a non-boolean')
-        # `assert x is not None` refines the Optional
-        t = s.test
-        if isinstance(t, ast.Compare) and isinstance(t.ops[0], ast.IsNot) and isinstance(t.left, ast.Name):
-            n = t.left.id
-            ctx.types[n] = ctx.types[n][4:]
-            return emit_binds(b, f'match {v(n)} with None => None | Some {v(n)} => {cont()} end')
-        return emit_binds(b, f'if {c} then {cont()} else None')
+        return tr_test(s.test, ctx, s, lambda c: cont(c), lambda c: 'None')
     if isinstance(s, ast.Raise):
         if ctx.pure:
             die(w, s, 'raise in a total property')
@@ -568,10 +694,9 @@ def tr_stmts(stmts, ctx, after):
     if isinstance(s, ast.Return):
         if s.value is None:
             return ctx.ret_wrap('tt')
-        # a mutating / partial call returned as it is keeps its own option
         (x, tx), b = with_binds(ctx, lambda: tr_expr(s.value, ctx))
-        if tx.startswith('opt ') and ctx.fn.ret == 'pmodule' and tx[4:] == 'gexec':
-            return emit_binds(b, f'match {x} with None => None | Some t_ => Some (to_module t_) end')
+        if tx == 'gexec' and ctx.fn.ret == 'pmodule':
+            x, tx = f'(to_module {x})', 'pmodule'
         if tx != ctx.fn.ret and not (tx == 'emptylist'):
             die(w, s, f'returns a {tx}, declared {ctx.fn.ret}')
         return emit_binds(b, ctx.ret_wrap(x))
@@ -580,88 +705,79 @@ def tr_stmts(stmts, ctx, after):
         if isinstance(s, ast.Assign) and len(s.targets) != 1:
             die(w, s, 'multiple targets')
         val = s.value
-        if val is None:
-            die(w, s, 'declaration without value')
-        # `sym, _ = kl.deconstruct_nary_application(p)`
-        if isinstance(tgt, ast.Tuple):
-            if (len(tgt.elts) == 2 and all(isinstance(t, ast.Name) for t in tgt.elts) and tgt.elts[1].id == '_'
-                    and isinstance(val, ast.Call) and dotted(val.func) == 'kl.deconstruct_nary_application' and len(val.args) == 1):
-                (a, ta), b = with_binds(ctx, lambda: tr_expr(val.args[0], ctx))
-                ctx.types[tgt.elts[0].id] = 'kpat'
-                return emit_binds(b, f'let {v(tgt.elts[0].id)} := nary_head {a} in {cont()}')
-            die(w, s, 'tuple assignment')
+        if isinstance(val, ast.Subscript) and dotted(val.value) == 'self._cached_axiom_scopes' and isinstance(tgt, ast.Name):
+            (k, tk), b = with_binds(ctx, lambda: tr_expr(val.slice, ctx))
+            ns = ctx.fresh('s')
+            ctx.env[tgt.id] = (ns, 'gscope')
+            return emit_binds(b, f'match sem_cached_scope {ctx.env["self"][0]} {k} with None => None | Some {ns} => {cont()} end')
         if isinstance(val, ast.Constant) and val.value is None and isinstance(tgt, ast.Name):
             ann = ast.unparse(s.annotation) if isinstance(s, ast.AnnAssign) else ''
             if 'ExecutionProofExp' not in ann:
                 die(w, s, 'None initialiser')
-            ctx.types[tgt.id] = 'opt gexec'
-            return f'let {v(tgt.id)} := @None gexec in {cont()}'
-        if isinstance(val, ast.Attribute) and dotted(val) == 'self._cached_axiom_scopes':
-            die(w, s, 'bare scope cache')
-        if isinstance(val, ast.Subscript) and dotted(val.value) == 'self._cached_axiom_scopes' and isinstance(tgt, ast.Name):
-            (k, tk), b = with_binds(ctx, lambda: tr_expr(val.slice, ctx))
-            ctx.types[tgt.id] = 'gscope'
-            return emit_binds(b, f'match sem_cached_scope v_self {k} with None => None | Some {v(tgt.id)} => {cont()} end')
+            ctx.env[tgt.id] = ('(@None gexec)', 'opt gexec')
+            return cont()
+        key_first = isinstance(tgt, ast.Subscript) and getattr(s, '_key_first', False)
+        if key_first:        # a dict comprehension evaluates the key before the value
+            (k, tk), b2 = with_binds(ctx, lambda: tr_expr(tgt.slice, ctx))
         (x, tx), b = with_binds(ctx, lambda: tr_expr(val, ctx))
+        if isinstance(tgt, ast.Tuple):
+            names = [t.id if isinstance(t, ast.Name) else None for t in tgt.elts]
+            if None in names:
+                die(w, s, 'tuple target')
+            if tx == 'tup3' and len(names) == 3:
+                for i, n in enumerate(names):
+                    if n != '_':
+                        ctx.env[n] = (tup3_proj(x, i), 'kpat')
+                return emit_binds(b, cont())
+            if tx == 'naryparts' and len(names) == 2 and names[1] == '_':
+                ctx.env[names[0]] = (x, 'kpat')
+                return emit_binds(b, cont())
+            if tx.startswith('tuple:') and isinstance(val, ast.Tuple) and len(val.elts) == len(names):
+                if b:
+                    die(w, s, 'tuple assignment whose elements have effects')
+                parts, b3 = with_binds(ctx, lambda: [tr_expr(el, ctx) for el in val.elts])
+                if b3:
+                    die(w, s, 'tuple assignment whose elements have effects')
+                for n, (px, pt) in zip(names, parts):
+                    if n != '_':
+                        ctx.env[n] = (px, pt)
+                return emit_binds(b, cont())
+            die(w, s, f'tuple assignment from a {tx}')
         if isinstance(tgt, ast.Name):
-            old = ctx.types.get(tgt.id)
-            if old and old.startswith('opt ') and old[4:] == tx:
-                x, tx = f'(Some {x})', old
-            ctx.types[tgt.id] = tx
-            return emit_binds(b, f'let {v(tgt.id)} := {x} in {cont()}')
-        if isinstance(tgt, ast.Attribute) and isinstance(tgt.value, ast.Name):
-            ot = ctx.types.get(tgt.value.id)
+            assign_name(ctx, tgt.id, x, tx, s)
+            return emit_binds(b, cont())
+        if isinstance(tgt, ast.Attribute) and isinstance(tgt.value, ast.Name) and tgt.value.id in ctx.env:
+            o, ot = ctx.env[tgt.value.id]
             if (ot, tgt.attr) in SETTERS and ATTRS[(ot, tgt.attr)][1] == tx:
-                o = v(tgt.value.id)
-                return emit_binds(b, f'let {o} := {SETTERS[(ot, tgt.attr)]} {o} {x} in {cont()}')
+                ns = ctx.fresh('s')
+                ctx.env[tgt.value.id] = (ns, ot)
+                return emit_binds(b, f'let {ns} := {SETTERS[(ot, tgt.attr)]} {o} {x} in {cont()}')
             die(w, s, 'attribute assignment')
         if isinstance(tgt, ast.Subscript):
-            # d[k] = v  on a dict attribute of the threaded object, or on a local dict
-            (k, tk), b2 = with_binds(ctx, lambda: tr_expr(tgt.slice, ctx))
-            if b2:
-                die(w, s, 'effect in a subscript target')
+            if not key_first:    # `d[k] = v`: the value first, then the subscript of the target
+                (k, tk), b2 = with_binds(ctx, lambda: tr_expr(tgt.slice, ctx))
             base = tgt.value
-            if isinstance(base, ast.Attribute) and isinstance(base.value, ast.Name):
-                ot = ctx.types.get(base.value.id)
+            allb = b2 + b if key_first else b + b2
+            if isinstance(base, ast.Attribute) and isinstance(base.value, ast.Name) and base.value.id in ctx.env:
+                o, ot = ctx.env[base.value.id]
                 if (ot, base.attr) in SETTERS and ATTRS[(ot, base.attr)][1] == 'sdict' and tk == 'str' and tx == 'kpat':
-                    o = v(base.value.id)
                     get = ATTRS[(ot, base.attr)][0]
-                    return emit_binds(b, f'let {o} := {SETTERS[(ot, base.attr)]} {o} (sd_set ({get} {o}) {k} {x}) in {cont()}')
-            if isinstance(base, ast.Name) and ctx.types.get(base.id) == 'ndict' and tk == 'N' and tx == 'kpat':
-                return emit_binds(b, f'let {v(base.id)} := nd_set {v(base.id)} {k} {x} in {cont()}')
+                    ns = ctx.fresh('s')
+                    ctx.env[base.value.id] = (ns, ot)
+                    return emit_binds(allb, f'let {ns} := {SETTERS[(ot, base.attr)]} {o} (sd_set ({get} {o}) {k} {x}) in {cont()}')
+            if isinstance(base, ast.Name) and base.id in ctx.env and ctx.env[base.id][1] == 'ndict' and tk == 'N' and tx == 'kpat':
+                ctx.env[base.id] = (f'(nd_set {ctx.env[base.id][0]} {k} {x})', 'ndict')
+                return emit_binds(allb, cont())
             die(w, s, 'subscript assignment')
         die(w, s, 'assignment target')
     if isinstance(s, ast.If):
-        (c, tc), b = with_binds(ctx, lambda: tr_expr(s.test, ctx))
-        if tc != 'bool':
-            die(w, s, 'condition')
-        tt, te = terminates(s.body), terminates(s.orelse)
-        if tt and te:
-            saved = dict(ctx.types)
-            a = tr_stmts(s.body, ctx, lambda: die(w, s, 'fall through'))
-            ctx.types = dict(saved)
-            o = tr_stmts(s.orelse, ctx, lambda: die(w, s, 'fall through'))
-            return emit_binds(b, f'if {c} then {a} else {o}')
-        if tt or te:
-            saved = dict(ctx.types)
-            if tt:
-                a = tr_stmts(s.body, ctx, lambda: die(w, s, 'fall through'))
-                ctx.types = dict(saved)
-                o = tr_stmts(s.orelse, ctx, cont)
-            else:
-                o = tr_stmts(s.orelse, ctx, lambda: die(w, s, 'fall through'))
-                ctx.types = dict(saved)
-                a = tr_stmts(s.body, ctx, cont)
-            return emit_binds(b, f'if {c} then {a} else {o}')
-        # both continue: the branches may only rebind ONE variable
-        if s.orelse:
-            die(w, s, 'if/else where both branches continue')
-        var = assigned_var(s.body, ctx)
-        body = tr_stmts(s.body, ctx, lambda: v(var) if True else '')
-        # the body is a let-chain ending in the variable; it must be total
-        if 'None' in body.replace('@None', '').replace('with None', '').replace('| None', ''):
-            pass
-        return emit_binds(b, f'let {v(var)} := (if {c} then {body} else {v(var)}) in {cont()}')
+        def branch(stmts_):
+            def go(c):
+                if terminates(stmts_):
+                    return tr_stmts(stmts_, c, lambda c2: die(w, s, 'fall through'))
+                return tr_stmts(stmts_, c, lambda c2: cont(c2))
+            return go
+        return tr_test(s.test, ctx, s, branch(s.body), branch(s.orelse))
     if isinstance(s, ast.For):
         return tr_for(s, ctx, cont)
     if isinstance(s, ast.Match):
@@ -669,24 +785,48 @@ def tr_stmts(stmts, ctx, after):
     die(w, s, 'statement outside the subset')
 
 
-def assigned_var(body, ctx):
-    names = set()
-    for st in body:
-        if isinstance(st, ast.Assign) and len(st.targets) == 1:
-            t = st.targets[0]
-        elif isinstance(st, ast.Expr) and isinstance(st.value, ast.Call) and isinstance(st.value.func, ast.Attribute) \
-                and st.value.func.attr == 'append':
-            t = st.value.func.value
-        else:
-            die(ctx.where, st, 'statement in a non-returning if')
-        while isinstance(t, (ast.Attribute, ast.Subscript)):
-            t = t.value
-        if not isinstance(t, ast.Name):
-            die(ctx.where, st, 'target in a non-returning if')
-        names.add(t.id)
-    if len(names) != 1:
-        die(ctx.where, body[0], 'non-returning if must update exactly one variable')
-    return names.pop()
+def tr_test(test, ctx, node, then_k, else_k):
+    """canonical conditional: negations are removed by swapping the branches; a test of an Optional against None is a
+    match that refines the variable"""
+    w = ctx.where
+    while isinstance(test, ast.UnaryOp) and isinstance(test.op, ast.Not):
+        test = test.operand
+        then_k, else_k = else_k, then_k
+    if isinstance(test, ast.Compare) and len(test.ops) == 1 and isinstance(test.ops[0], (ast.NotIn, ast.IsNot)):
+        test = ast.Compare(left=test.left, ops=[ast.In() if isinstance(test.ops[0], ast.NotIn) else ast.Is()],
+                           comparators=test.comparators)
+        then_k, else_k = else_k, then_k
+    if isinstance(test, ast.Compare) and isinstance(test.ops[0], ast.Is):
+        if not (isinstance(test.comparators[0], ast.Constant) and test.comparators[0].value is None and isinstance(test.left, ast.Name)):
+            die(w, node, '`is` test')
+        n = test.left.id
+        x, t = ctx.env.get(n, (None, ''))
+        if not t.startswith('opt '):
+            die(w, node, f'`is None` on a {t}')
+        c1, c2 = ctx.fork(), ctx.fork()
+        nv = ctx.fresh('o')
+        c2.env[n] = (nv, t[4:])
+        a = then_k(c1)
+        o = else_k(c2)
+        return f'match {x} with None => {a} | Some {nv} => {o} end'
+    if isinstance(test, ast.Compare) and len(test.ops) == 1 and isinstance(test.ops[0], ast.In):
+        # `k in d` on a str-keyed dict = the Optional lookup; `d[k]` in the positive branch is the value found
+        (k, tk), bk = with_binds(ctx, lambda: tr_expr(test.left, ctx))
+        (d, td), bd = with_binds(ctx, lambda: tr_expr(test.comparators[0], ctx))
+        if td == 'sdict' and tk == 'str' and not bk and not bd:
+            c1, c2 = ctx.fork(), ctx.fork()
+            nv = ctx.fresh('o')
+            c1.known[(k, d)] = nv
+            a = then_k(c1)
+            o = else_k(c2)
+            return f'match (sd_get {k} {d}) with None => {o} | Some {nv} => {a} end'
+    (c, tc), b = with_binds(ctx, lambda: tr_expr(test, ctx))
+    if tc != 'bool':
+        die(w, node, 'condition is not a boolean')
+    c1, c2 = ctx.fork(), ctx.fork()
+    a = then_k(c1)
+    o = else_k(c2)
+    return emit_binds(b, f'if {c} then {a} else {o}')
 
 
 def tr_for(s, ctx, cont):
@@ -694,41 +834,68 @@ def tr_for(s, ctx, cont):
     if s.orelse:
         die(w, s, 'for/else')
     (it, ti), b = with_binds(ctx, lambda: tr_expr(s.iter, ctx))
-    sub_types = dict(ctx.types)
-    if ti == 'items_sdictk' and isinstance(s.target, ast.Tuple) and len(s.target.elts) == 2:
-        a, c = s.target.elts
-        pat = f"'({v(a.id)}, {v(c.id)})"
-        sub_types[a.id], sub_types[c.id] = 'str', 'gkore'
+    sub = ctx.fork()
+    if ti == 'items_sdictk' and isinstance(s.target, ast.Tuple) and len(s.target.elts) == 2 \
+            and all(isinstance(t, ast.Name) for t in s.target.elts):
+        xa, xb = ctx.fresh('x'), ctx.fresh('x')
+        pat = f"'({xa}, {xb})"
+        sub.env[s.target.elts[0].id], sub.env[s.target.elts[1].id] = (xa, 'str'), (xb, 'gkore')
     elif ti in ('kpats', 'hints') and isinstance(s.target, ast.Name):
-        pat = v(s.target.id)
-        sub_types[s.target.id] = {'kpats': 'kpat', 'hints': 'hint'}[ti]
+        pat = ctx.fresh('x')
+        sub.env[s.target.id] = (pat, {'kpats': 'kpat', 'hints': 'hint'}[ti])
     else:
         die(w, s, f'for over a {ti}')
-    # loop state: the threaded object (if it is live here) and the locals the body rebinds
+    # loop state: the threaded object (if live) and the locals the body rebinds, in a canonical order
     state = []
-    if ctx.fn.state and ctx.fn.state in ctx.types:
+    if ctx.fn.state and ctx.fn.state in ctx.env:
         state.append(ctx.fn.state)
     for st in ast.walk(ast.Module(body=s.body, type_ignores=[])):
         t = None
         if isinstance(st, ast.Assign):
             t = st.targets[0]
-        elif isinstance(st, ast.Call) and isinstance(st.func, ast.Attribute) and st.func.attr in ('append', 'rewrite_event'):
+        elif isinstance(st, ast.Call) and isinstance(st.func, ast.Attribute) and st.func.attr == 'append':
             t = st.func.value
+        elif isinstance(st, ast.Call) and isinstance(st.func, ast.Attribute) and st.func.attr in BYNAME and BYNAME[st.func.attr].state:
+            # the object a translated method mutates is the argument at its state position
+            f_ = BYNAME[st.func.attr]
+            static_ = dotted(st.func.value) == f_.cls
+            srcs = ([] if static_ or f_.params[0][0] != 'self' else [st.func.value]) + list(st.args)
+            si_ = [i for i, (pn, _) in enumerate(f_.params) if pn == f_.state][0]
+            t = srcs[si_] if si_ < len(srcs) else None
         while isinstance(t, (ast.Attribute, ast.Subscript)):
             t = t.value
-        if isinstance(t, ast.Name) and t.id in ctx.types and t.id not in state:
+        if isinstance(t, ast.Name) and t.id in ctx.env and t.id not in state:
             state.append(t.id)
     if not state:
         die(w, s, 'loop without state')
-    tup = '(' + ', '.join(v(n) for n in state) + ')' if len(state) > 1 else v(state[0])
-    saved = ctx.types
-    ctx.types = sub_types
-    body = tr_stmts(s.body, ctx, lambda: f'Some {tup}')
-    for n in state:                      # types refined in the body (emptylist -> list type) survive the loop
-        saved[n] = ctx.types[n]
-    ctx.types = saved
-    lam = f"(fun {(chr(39) + tup) if len(state) > 1 else tup} {pat} => {body})"
-    return emit_binds(b, f'match st_fold {lam} {tup} {it} with None => None | Some {tup} => {cont()} end')
+    ltypes = {n: ctx.env[n][1] for n in state}
+    names = {n: ctx.fresh('a') for n in state}
+    for n in state:
+        sub.env[n] = (names[n], ltypes[n])
+
+    def pack(c):
+        vals = []
+        for n in state:
+            x, t = c.env[n]
+            lt = ltypes[n]
+            if lt == 'emptylist' and t != 'emptylist':
+                ltypes[n] = lt = t
+            if lt.startswith('opt ') and t == lt[4:]:
+                x = f'(Some {x})'
+            elif t != lt and t != 'emptylist':
+                die(w, s, f'loop variable {n} changes type: {lt} -> {t}')
+            vals.append(x)
+        return '(' + ', '.join(vals) + ')' if len(vals) > 1 else vals[0]
+
+    body = tr_stmts(s.body, sub, lambda c: f'Some {pack(c)}')
+    tup_in = '(' + ', '.join(names[n] for n in state) + ')' if len(state) > 1 else names[state[0]]
+    init = '(' + ', '.join(ctx.env[n][0] for n in state) + ')' if len(state) > 1 else ctx.env[state[0]][0]
+    outs = {n: ctx.fresh('r') for n in state}
+    tup_out = '(' + ', '.join(outs[n] for n in state) + ')' if len(state) > 1 else outs[state[0]]
+    for n in state:
+        ctx.env[n] = (outs[n], ltypes[n])
+    lam = f"(fun {(chr(39) + tup_in) if len(state) > 1 else tup_in} {pat} => {body})"
+    return emit_binds(b, f'match st_fold {lam} {init} {it} with None => None | Some {tup_out} => {cont()} end')
 
 
 def tr_match(s, ctx, cont):
@@ -736,48 +903,49 @@ def tr_match(s, ctx, cont):
     (subj, ts), b = with_binds(ctx, lambda: tr_expr(s.subject, ctx))
     if ts != 'gkore':
         die(w, s, 'match on a non-Kore value')
-    clauses, seen = [], set()
-    saved = dict(ctx.types)
+    clauses, seen = {}, set()
     for c in s.cases:
-        p = c.pattern
-        if c.guard is not None or not isinstance(p, ast.MatchClass) or p.kwd_patterns:
-            die(w, c.pattern, 'case pattern')
-        cname = dotted(p.cls)
-        if not cname or not cname.startswith('kore.') or cname[5:] not in KORE:
-            die(w, c.pattern, 'case class')
-        ctor, ftypes = KORE[cname[5:]]
-        if len(p.patterns) != len(ftypes):
-            die(w, c.pattern, 'number of positional sub-patterns')
-        ctx.types = dict(saved)
-        binders = []
-        for sp, ft in zip(p.patterns, ftypes):
-            if not isinstance(sp, ast.MatchAs) or sp.pattern is not None:
-                die(w, c.pattern, 'sub-pattern is not a capture')
-            if sp.name is None:
-                binders.append('_')
-            else:
-                binders.append(v(sp.name))
-                ctx.types[sp.name] = ft
-        if ctor in seen:
-            die(w, c.pattern, 'constructor matched twice')
-        seen.add(ctor)
-        body = tr_stmts(c.body, ctx, cont)
-        clauses.append(f'  | {ctor} {" ".join(binders)} =>\n      {body}')
-    ctx.types = saved
+        if c.guard is not None:
+            die(w, c.pattern, 'guarded case')
+        alts = c.pattern.patterns if isinstance(c.pattern, ast.MatchOr) else [c.pattern]
+        for p in alts:
+            if not isinstance(p, ast.MatchClass) or p.kwd_patterns:
+                die(w, p, 'case pattern')
+            cname = dotted(p.cls)
+            if not cname or not cname.startswith('kore.') or cname[5:] not in KORE:
+                die(w, p, 'case class')
+            ctor, ftypes = KORE[cname[5:]]
+            pats = p.patterns if p.patterns else [ast.MatchAs(pattern=None, name=None)] * len(ftypes)
+            if len(pats) != len(ftypes):
+                die(w, p, 'number of positional sub-patterns')
+            sub = ctx.fork()
+            binders = []
+            for sp, ft in zip(pats, ftypes):
+                if not isinstance(sp, ast.MatchAs) or sp.pattern is not None:
+                    die(w, p, 'sub-pattern is not a capture')
+                x = ctx.fresh('x')          # wildcards get a (unused) name too: the text does not depend on them
+                binders.append(x)
+                if sp.name is not None:
+                    sub.env[sp.name] = (x, ft)
+            if ctor in seen:
+                continue                                    # an earlier arm wins
+            seen.add(ctor)
+            body = tr_stmts(c.body, sub, lambda c2: cont(c2))
+            clauses[ctor] = f'  | {ctor} {" ".join(binders)} =>\n      {body}'
+    order = [KORE[k][0] for k in KORE]
+    text = [clauses[c] for c in order if c in clauses]          # arms in a fixed (constructor) order
     if len(seen) < len(KORE):
-        clauses.append(f'  | _ => {cont()}')
-    return emit_binds(b, 'match ' + subj + ' with\n' + '\n'.join(clauses) + '\n  end')
+        text.append(f'  | _ => {cont(ctx.fork())}')
+    return emit_binds(b, 'match ' + subj + ' with\n' + '\n'.join(text) + '\n  end')
 
 
 # ------------------------------------------------------------------------------------------------ driver
 
-def find_method(tree, cls, name):
+def find_class(tree, cls):
     for n in tree.body:
         if isinstance(n, ast.ClassDef) and n.name == cls:
-            for m in n.body:
-                if isinstance(m, ast.FunctionDef) and m.name == name:
-                    return n, m
-    return None, None
+            return n
+    return None
 
 
 def generate(repo):
@@ -792,10 +960,10 @@ def generate(repo):
         if f.file not in trees:
             with open(os.path.join(base, f.file)) as fh:
                 trees[f.file] = ast.parse(fh.read())
-        cls, m = find_method(trees[f.file], f.cls, f.name)
+        cls = find_class(trees[f.file], f.cls)
+        m = next((x for x in (cls.body if cls else []) if isinstance(x, ast.FunctionDef) and x.name == f.name), None)
         if m is None:
             raise SystemExit(f'kore_conv: {f.cls}.{f.name} not found in {f.file}')
-        # class constants used by the method
         if f.name == 'resolve_sort_param_metavar':
             const = [n for n in cls.body if isinstance(n, ast.Assign) and isinstance(n.targets[0], ast.Name)
                      and n.targets[0].id == 'SORT_PARAM_METAVAR']
@@ -805,22 +973,36 @@ def generate(repo):
         pnames = [a.arg for a in m.args.args]
         if pnames != [p for p, _ in f.params] or m.args.vararg or m.args.kwarg or m.args.kwonlyargs or m.args.defaults:
             die(f'{f.cls}.{f.name}', m, f'parameters changed (expected {[p for p, _ in f.params]})')
+        # private static helpers of the same class that are not translated themselves: inlined at their call sites
+        helpers = {}
+        for x in cls.body:
+            if isinstance(x, ast.FunctionDef) and x.name.startswith('_') and not x.name.startswith('__') and x.name not in BYNAME \
+                    and any(dotted(d) == 'staticmethod' for d in x.decorator_list):
+                helpers[(f.cls, x.name)] = x
+        import copy
+        counter = [0]
+        stmts = desugar(inline_helpers(copy.deepcopy(m.body), helpers, f'{f.cls}.{f.name}', counter), counter)
+        for st in ast.walk(ast.Module(body=stmts, type_ignores=[])):
+            if isinstance(st, ast.Assign) and isinstance(st.targets[0], ast.Subscript) and isinstance(st.targets[0].value, ast.Name) \
+                    and st.targets[0].value.id.startswith('dc'):
+                st._key_first = True
         ctx = Ctx(f)
-        for n, t in f.extra + f.params:
-            ctx.types[n] = t
+        plist = f.extra + f.params
         if f.name == 'convert_substitutions':
-            del ctx.types  # noqa  (rebuilt below: `scope` is a local of this function)
-            ctx.types = {n: t for n, t in f.params}
-        body = tr_stmts(m.body, ctx, lambda: ctx.ret_wrap('tt') if f.ret == 'unit' else die(ctx.where, m, 'falls off the end'))
-        pure = ctx.pure
-        if pure and ('None' in body):
+            plist = f.params
+        for n, t in plist:
+            ctx.env[n] = (v(n), t)
+        body = tr_stmts(stmts, ctx, lambda c: c.ret_wrap('tt') if f.ret == 'unit' else die(c.where, m, 'falls off the end'))
+        if ctx.pure and 'None' in body:
             die(ctx.where, m, 'partial operation in a total property')
         params = ' '.join(f'({v(n)}:{COQTYPE[t]})' for n, t in f.extra + f.params)
-        if f.state:
-            rt = f'option ({COQTYPE[ctx.types[f.state]] if f.state in ctx.types else "gscope"} * {COQTYPE[f.ret]})' \
-                if f.ret != 'unit' else f'option {COQTYPE[dict(f.params)[f.state]]}'
+        if ctx.pure:
+            rt = COQTYPE[f.ret]
+        elif f.state:
+            stype = dict(f.params).get(f.state, 'gscope')
+            rt = f'option ({COQTYPE[stype]} * {COQTYPE[f.ret]})' if f.ret != 'unit' else f'option {COQTYPE[stype]}'
         else:
-            rt = COQTYPE[f.ret] if pure else f'option ({COQTYPE[f.ret]})'
+            rt = f'option ({COQTYPE[f.ret]})'
         if f.rec:
             out.append(f'Fixpoint {f.coq} (fuel:nat) {params} {{struct fuel}} : {rt} :=\n  match fuel with O => None | S fuel =>\n  {body}\n  end.')
         elif f.fuel:
